@@ -13,8 +13,48 @@ KANI = {
             'vk_base_bit_encode_f64': {'kind': 'complete', 'domain': 'all (i64, i16)'},
         },
     },
+    'int_primitive': {
+        'package': 'dashu-int', 'target': 'integer/src/primitive.rs', 'file': 'int_primitive.rs',
+        'harnesses': {
+            'vk_int_primitive_to_sm_i8': {'kind': 'complete', 'domain': 'all i8'},
+            'vk_int_primitive_from_sm_i8': {'kind': 'complete', 'domain': 'both signs x all u8'},
+            'vk_int_primitive_rt_sm_i8': {'kind': 'complete', 'domain': 'all i8'},
+            'vk_int_primitive_to_sm_i16': {'kind': 'complete', 'domain': 'all i16'},
+            'vk_int_primitive_from_sm_i16': {'kind': 'complete', 'domain': 'both signs x all u16'},
+            'vk_int_primitive_rt_sm_i16': {'kind': 'complete', 'domain': 'all i16'},
+            'vk_int_primitive_to_sm_i32': {'kind': 'complete', 'domain': 'all i32'},
+            'vk_int_primitive_from_sm_i32': {'kind': 'complete', 'domain': 'both signs x all u32'},
+            'vk_int_primitive_rt_sm_i32': {'kind': 'complete', 'domain': 'all i32'},
+            'vk_int_primitive_to_sm_i64': {'kind': 'complete', 'domain': 'all i64'},
+            'vk_int_primitive_from_sm_i64': {'kind': 'complete', 'domain': 'both signs x all u64'},
+            'vk_int_primitive_rt_sm_i64': {'kind': 'complete', 'domain': 'all i64'},
+            'vk_int_primitive_to_sm_isize': {'kind': 'complete', 'domain': 'all isize'},
+            'vk_int_primitive_from_sm_isize': {'kind': 'complete', 'domain': 'both signs x all usize'},
+            'vk_int_primitive_rt_sm_isize': {'kind': 'complete', 'domain': 'all isize'},
+            'vk_int_primitive_to_sm_i128': {'kind': 'complete', 'domain': 'all i128'},
+            'vk_int_primitive_from_sm_i128': {'kind': 'complete', 'domain': 'both signs x all u128'},
+            'vk_int_primitive_rt_sm_i128': {'kind': 'complete', 'domain': 'all i128'},
+            'vk_int_primitive_double_word': {'kind': 'complete', 'domain': 'all (Word, Word)'},
+            'vk_int_primitive_split_dword': {'kind': 'complete', 'domain': 'all DoubleWord'},
+            'vk_int_primitive_signed_dword': {'kind': 'complete', 'domain': 'all SignedDoubleWord, all Word'},
+            'vk_int_primitive_slice_accessors': {'kind': 'bounded', 'bound': 'slices of 2..=4 symbolic words'},
+            'vk_int_primitive_locate_top_word': {'kind': 'bounded', 'bound': 'slices of 0..=4 symbolic words'},
+            'vk_int_primitive_word_from_bytes_partial': {'kind': 'complete', 'domain': 'all lengths 0..=WORD_BYTES x all bytes x {le, be} x {zero, one padding}'},
+            'vk_int_primitive_dword_from_bytes_partial': {'kind': 'complete', 'domain': 'all lengths 0..=DWORD_BYTES x all bytes x {le, be} x {zero, one padding}'},
+        },
+    },
+    'int_convert_small': {
+        'package': 'dashu-int', 'target': 'integer/src/convert.rs', 'file': 'int_convert_small.rs',
+        'harnesses': {
+            'vk_int_convert_small_to_f32': {'kind': 'complete', 'domain': 'all DoubleWord (u128) via TypedReprRef::RefSmall'},
+            'vk_int_convert_small_to_f64': {'kind': 'complete', 'domain': 'all DoubleWord (u128) via TypedReprRef::RefSmall'},
+            'vk_int_convert_small_ibig_to_f32': {'kind': 'complete', 'domain': 'IBig::from(x) for all i128 x'},
+            'vk_int_convert_small_ibig_to_f64': {'kind': 'complete', 'domain': 'IBig::from(x) for all i128 x'},
+        },
+    },
 }
 
 PROP_UNITS = {
-    'C06': {'kani': ['base_bit']},
+    'C06': {'kani': ['base_bit', 'int_primitive', 'int_convert_small']},
+    'C17': {'kani': ['int_primitive']},
 }
